@@ -1,5 +1,7 @@
 ----------------------------- MODULE ThreadCallsAio -----------------------------
-(* C13, Impl layer for AsyncioSelectorReactor.callFromThread (asyncioreactor.py), as coded:
+(* HISTORICAL (not run by the check any more): the algorithm of AsyncioSelectorReactor.callFromThread BEFORE the repair
+   of the C13 ordering defect (/repo 1e33a40: the reactor now queues on threadCallQueue, i.e. ThreadCallsImpl applies).
+   C13, Impl layer for AsyncioSelectorReactor.callFromThread (asyncioreactor.py), as it was coded:
 
        def callFromThread(self, f, *args, **kwargs):
            g = lambda: self.callLater(0, f, *args, **kwargs)
